@@ -705,7 +705,9 @@ def native(seed=0):
                         bad.append(dict(what="Solution.field_at_position of a film at height z0 = 0.75 differs from the Biot-Savart kernel evaluated for a sheet at that height",
                                         vector=vec, current_units=cu_, max_rel_dev=float(np.abs(np.asarray(got) - ref).max() / (np.abs(ref).max() + 1e-300))))
                 # vector potential of the sheet currents against the direct SI sum (mu0/4pi) sum K a / |r - r'|; total = applied + parts
-                Pz = np.array([[0.3, 0.2, 2.0], [-0.8, 0.5, 1.5], [2.0, -1.0, 3.0]])
+                # generic points and points exactly above / below mesh sites (scanning a probe over the sites of the device is a common use)
+                Pz = np.concatenate([np.array([[0.3, 0.2, 2.0], [-0.8, 0.5, 1.5], [2.0, -1.0, 3.0]]),
+                                     np.column_stack([sol.device.points[[0, 7, 19]], np.array([1.05, 0.45, 2.0])])])
                 for out_u in (None, "tesla * meter"):
                     parts = sol.vector_potential_at_position(Pz, units=out_u, return_sum=False)
                     tot = sol.vector_potential_at_position(Pz, units=out_u)
